@@ -96,6 +96,8 @@ def run(cx: Cx):
 
     # ------------------------------------------------------------ clause 4: remove_cell_component
     check_atomic(cx, rem.qualname, ['ComponentNotFoundError'])
+    from .common import check_overrides_forward
+    check_overrides_forward(cx, DW, ['add_cell_component', 'remove_cell_component'])
     rs, rn = Sym(rem.params[0]), Sym(rem.params[1])
     rcells = Attr(rs, 'cells')
     for p in cx.walker.paths(rem, WalkOptions(unroll=1, callee_raises=False)):
@@ -186,6 +188,13 @@ def run(cx: Cx):
         c = subst_atoms(p.cond, fold)
         arms.append((depth, c, p, t == table))
 
+    stale = [(d, p) for d, c, p, okk in arms if not okk]
+    if stale:
+        cx.violation('R-GUARD', lg.qualname, 'lookup-reads-the-current-table',
+                     f"LookupGenerator.__call__ returns {stale[0][1].last.data.get('value')!r}: the entry is not read from self.table "
+                     f"at call time (a converted or cached copy goes stale when the table is edited or replaced between components)",
+                     where=cx.where(lg, stale[0][1].last.line))
+        return
     reach = [(d, p) for d, c, p, ok in arms if c == FTrue]
     undecided = [(d, c) for d, c, p, ok in arms if not isinstance(c, FConst)]
     cx.floor('LookupGenerator dispatch arms', len(arms), 2)
